@@ -266,6 +266,14 @@ func newEnv(scratch, probe string) (*Env, error) {
 		if _, err := os.Stat(filepath.Join(base, "cgroup.procs")); err != nil {
 			continue
 		}
+		// groups left behind by killed drivers (empty ones can simply be removed)
+		if old, _ := filepath.Glob(filepath.Join(base, "vlaunch-*")); len(old) > 0 {
+			for _, o := range old {
+				if pid, _ := strconv.Atoi(strings.TrimPrefix(filepath.Base(o), "vlaunch-")); pid > 0 && unix.Kill(pid, 0) == unix.ESRCH {
+					os.Remove(o)
+				}
+			}
+		}
 		p := filepath.Join(base, name)
 		if err := os.Mkdir(p, 0755); err != nil {
 			continue
